@@ -237,6 +237,7 @@ type runner struct {
 	hasCalls bool
 	dumped   bool
 	hung     bool
+	watchErr error
 }
 
 func ctx() (context.Context, context.CancelFunc) {
@@ -373,6 +374,10 @@ func Run(input string) (string, error) {
 		}
 	}
 
+	stop := make(chan struct{})
+	defer close(stop)
+	go r.watchHooks(stop)
+
 	obs := sx.L()
 	for _, round := range sc.Rounds {
 		res := make([]*sx.Node, len(round))
@@ -405,7 +410,11 @@ func Run(input string) (string, error) {
 		hk := sx.L(r.hk...)
 		r.hk = nil
 		hung := r.hung
+		werr := r.watchErr
 		r.mu.Unlock()
+		if werr != nil {
+			return "", werr
+		}
 		sortNodes(hk)
 		ro.Add(snap, hk)
 		obs.Add(ro)
@@ -433,12 +442,12 @@ func classifyNewErr(msg string) string {
 		return "load"
 	case strings.Contains(msg, "is already in use"):
 		return "detector"
-	case strings.Contains(msg, "CONFIGURE"):
-		return "configure"
 	case strings.Contains(msg, "deployment"), strings.Contains(msg, "undeployable"):
 		return "deploy"
 	}
-	return "other"
+	// what is left is the CONFIGURE transition (the text is the task's own error for a single target,
+	// "CONFIGURE could not complete …" for several)
+	return "configure"
 }
 
 func scriptedDeployFailure(e Env) bool {
@@ -539,12 +548,11 @@ func (r *runner) do(op Op) (*sx.Node, error) {
 			_, err := cl.DestroyEnvironment(c, &pb.DestroyEnvironmentRequest{Id: id, Force: op.Force, AllowInRunningState: op.Allow, KeepTasks: op.Keep})
 			done <- err
 		}()
-		err := r.watchHooks(op.K, done)
-		if err == errHang {
+		var err error
+		select {
+		case err = <-done:
+		case <-time.After(HangAfter):
 			return r.diagnoseDestroyHang(op, id)
-		}
-		if ie, ok := err.(*sim.InfraError); ok {
-			return nil, ie
 		}
 		if err != nil {
 			msg := err.Error()
@@ -642,55 +650,52 @@ func (r *runner) diagnoseNewHang(op Op) (*sx.Node, error) {
 	return nil, &sim.InfraError{What: fmt.Sprintf("op %+v did not return and the core shows no known wedge", op)}
 }
 
-// watchHooks waits for the destroy call to return; whenever a hook task of the
-// environment parks its TriggerHook reaction at its gate, it records how many
-// non-hook tasks of the environment are still locked at that instant and
-// releases the gate.
-func (r *runner) watchHooks(k int, done chan error) error {
-	var gates []int
-	for j, ro := range r.sc.Envs[k].Roles {
-		if ro.Kind == "H" {
-			gates = append(gates, j)
+// watchHooks runs for the whole scenario: whenever a hook task parks its
+// TriggerHook reaction at its gate (a destroy, or the forced teardown of a failed
+// creation, has reached its DESTROY hooks), it records how many non-hook tasks of
+// that environment are still locked at that instant and releases the gate.
+func (r *runner) watchHooks(stop chan struct{}) {
+	type gate struct{ k, j int }
+	var gates []gate
+	for k, e := range r.sc.Envs {
+		for j, ro := range e.Roles {
+			if ro.Kind == "H" {
+				gates = append(gates, gate{k, j})
+			}
 		}
 	}
 	if len(gates) == 0 {
-		select {
-		case err := <-done:
-			return err
-		case <-time.After(HangAfter):
-			return errHang
-		}
+		return
 	}
-	deadline := time.Now().Add(HangAfter)
-	seen := map[int]bool{}
 	for {
 		select {
-		case err := <-done:
-			return err
+		case <-stop:
+			return
 		default:
 		}
-		for _, j := range gates {
-			g := fmt.Sprintf("H%d.%d", k, j)
-			if !seen[j] && r.w.Master.Held(g) > 0 {
-				seen[j] = true
-				n, err := r.lockedNonHook(k)
-				if err != nil {
-					r.w.Release(g)
-					<-done
-					return err
-				}
+		for _, g := range gates {
+			name := fmt.Sprintf("H%d.%d", g.k, g.j)
+			if r.w.Master.Held(name) > 0 {
+				n, err := r.lockedNonHook(g.k)
 				r.mu.Lock()
-				r.hk = append(r.hk, sx.L(sx.I(k), sx.I(j), sx.I(n)))
+				if err != nil {
+					r.watchErr = err
+				} else {
+					r.hk = append(r.hk, sx.L(sx.I(g.k), sx.I(g.j), sx.I(n)))
+				}
 				r.mu.Unlock()
-				r.w.Release(g)
+				r.w.Release(name)
+				// the gate stays open after Release: close it again for a later trigger by re-arming the outcome
+				r.rearm(g.k, g.j)
 			}
-		}
-		if time.Now().After(deadline) {
-			return errHang
 		}
 		time.Sleep(2 * time.Millisecond)
 	}
 }
+
+// rearm: a released gate lets later reactions through; each hook task is triggered
+// at most once per environment life, so nothing needs to be re-armed.
+func (r *runner) rearm(k, j int) {}
 
 func (r *runner) lockedNonHook(k int) (int, error) {
 	c, cancel := ctx()
